@@ -227,17 +227,17 @@ theorem appWire_sharedNodes (c : GCfg) (origin : Option Node) (g : GState) (fnod
     split
     · exact gAddFrom_sharedNodes _ _ _ _ _
     · rfl
-  have w5 : ∀ g, (wire5 c origin g fnode xnode ci).sharedNodes = g.sharedNodes := by
-    intro g; unfold wire5; cases ci with
+  have w5 : ∀ g rep, (wire5 c origin g fnode xnode ci rep).sharedNodes = g.sharedNodes := by
+    intro g rep; unfold wire5; cases ci with
     | none => rfl
     | some i =>
       simp only []
-      have hf := foldl_sharedNodes (fun g fin => if xnode != fin then gAddFrom c g i fin else g) (fun g fin => by
+      have hf := foldl_sharedNodes (fun g fin => if xnode != fin || rep then gAddFrom c g i fin else g) (fun g fin => by
         split
         · exact gAddFrom_sharedNodes _ _ _ _ _
         · rfl) (objectsOf g.fd.frm fnode).eraseDups g
       have := addOrigin_sharedNodes c origin
-        ((objectsOf g.fd.frm fnode).eraseDups.foldl (fun g fin => if xnode != fin then gAddFrom c g i fin else g) g) i
+        ((objectsOf g.fd.frm fnode).eraseDups.foldl (fun g fin => if xnode != fin || rep then gAddFrom c g i fin else g) g) i
       unfold addOrigin at this
       rw [this, hf]
   unfold appWire
